@@ -321,11 +321,76 @@ func bucketProblem(b []byte, off int, where string) string {
 				return s
 			}
 		}
+		if nestedDupKey(b, v) {
+			return where + ": duplicate key in a nested map"
+		}
 		if p = itemEnd(b, v); p < 0 {
 			return where + ": truncated"
 		}
 	}
 	return ""
+}
+
+// nestedDupKey reports whether some map at any depth of the item at off holds two keys written with
+// the same bytes ("no duplicate keys in any map", C05).  The CBOR library finds duplicates by
+// looking at whether its Go map grew, which a key that is not equal to itself (NaN) defeats.
+func nestedDupKey(b []byte, off int) bool {
+	major, n, p, ok := rdHead(b, off)
+	if !ok {
+		return false
+	}
+	switch major {
+	case 6:
+		return nestedDupKey(b, p)
+	case 4:
+		for i := uint64(0); i < n; i++ {
+			if nestedDupKey(b, p) {
+				return true
+			}
+			if p = itemEnd(b, p); p < 0 {
+				return false
+			}
+		}
+	case 5:
+		seen := map[string]bool{}
+		for i := uint64(0); i < n; i++ {
+			v := itemEnd(b, p)
+			if v < 0 {
+				return false
+			}
+			k := string(b[p:v])
+			if isNaNItem(b[p:v]) {
+				k = "NaN" // one value under every width
+			}
+			if seen[k] {
+				return true
+			}
+			seen[k] = true
+			if nestedDupKey(b, p) || nestedDupKey(b, v) {
+				return true
+			}
+			if p = itemEnd(b, v); p < 0 {
+				return false
+			}
+		}
+	}
+	return false
+}
+
+func isNaNItem(k []byte) bool {
+	switch {
+	case len(k) == 3 && k[0] == 0xf9:
+		return k[1]&0x7c == 0x7c && (k[1]&0x03 != 0 || k[2] != 0)
+	case len(k) == 5 && k[0] == 0xfa:
+		return k[1]&0x7f == 0x7f && k[2]&0x80 == 0x80 && (k[2]&0x7f != 0 || k[3] != 0 || k[4] != 0)
+	case len(k) == 9 && k[0] == 0xfb:
+		m := k[2]&0x0f != 0
+		for _, x := range k[3:] {
+			m = m || x != 0
+		}
+		return k[1]&0x7f == 0x7f && k[2]&0xf0 == 0xf0 && m
+	}
+	return false
 }
 
 func uitoa(v uint64) string {
@@ -427,6 +492,11 @@ func structureOfAccepted(kind string, data []byte) string {
 	case "ph":
 		return protectedProblem(data, 0, "protected")
 	case "uh":
+		// the unprotected bucket holds no tag, decoded on its own as inside a message (and the
+		// encoder refuses a value that needs one: C13, one verdict in both directions)
+		if hasTagInside(data, 0) {
+			return "tag in the unprotected bucket"
+		}
 		return bucketProblem(data, 0, "unprotected")
 	case "sig", "csig":
 		if hasTagInside(data, 0) && func() bool { // tags are allowed inside the protected content only
@@ -606,4 +676,28 @@ func wireAlg(data []byte) (kind string, alg int64) {
 		q = end
 	}
 	return kind, alg
+}
+
+// keyAlgZeroOnWire: the COSE_Key map as written has an entry whose label is the integer 3 and whose
+// value is the integer 0 — the reserved algorithm, which matches no key (C15)
+func keyAlgZeroOnWire(b []byte) bool {
+	major, n, p, ok := rdHead(b, 0)
+	if !ok || major != 5 {
+		return false
+	}
+	for i := uint64(0); i < n; i++ {
+		km, kv, _, ok := rdHead(b, p)
+		v := itemEnd(b, p)
+		if !ok || v < 0 {
+			return false
+		}
+		vm, vv, _, vok := rdHead(b, v)
+		if km == 0 && kv == 3 && vok && vm == 0 && vv == 0 {
+			return true
+		}
+		if p = itemEnd(b, v); p < 0 {
+			return false
+		}
+	}
+	return false
 }
